@@ -71,15 +71,10 @@ def check(ctx):
     cf = C.get(ctx.repo)
     c05.no_foreign_attribute_stores(ctx, "C07-R4", [ANG, DIH], floor=10)
     # ---- R1
-    c05.dispatch(ctx, "C07-R1", [(ANG, "compute_angles"), (DIH, "compute_dihedrals")])
+    c05.dispatch_eval(ctx, "C07-R1", [(ANG, "compute_angles"), (DIH, "compute_dihedrals")])
     c05.wrappers(ctx, "C07-R1", ["_angle_mic", "_dihedral_mic"])
     c05.ffi(ctx, "C07-R1", ["_angle", "_angle_mic", "_dihedral", "_dihedral_mic"])
-    # reference path used when opt is false on both the periodic and non-periodic branch
-    for rel, q, ref in ((ANG, "compute_angles", "_angle"), (DIH, "compute_dihedrals", "_dihedral")):
-        fn = ctx.py.func(rel, q)
-        rc = [n for n in walk_no_nested(fn) if isinstance(n, ast.Call) and call_name(n) == ref]
-        ok = len(rc) == 2 and all([src(a) for a in c.args][:3] == ["traj", "triplets" if ref == "_angle" else "quartets", "periodic"] for c in rc)
-        ctx.decide(ok, "C07-R1", fn, rel, q, "reference path receives (traj, indices, periodic)", "", "reference calls: %s" % [src(c) for c in rc])
+    # (that the reference path receives the trajectory, the indices and the caller's `periodic` is part of the dispatch evaluation)
 
     # ---- R2
     for kern in ("angle", "angle_mic", "angle_mic_triclinic"):
@@ -271,7 +266,14 @@ def check(ctx):
         loops = [n for n in ast.walk(cad) if isinstance(n, ast.For) and src(n.iter) == lp_iter]
         ok = False
         why = "loop over %s not found" % lp_iter
-        if loops:
+        comps = [n for n in ast.walk(cad) if isinstance(n, ast.DictComp) and len(n.generators) == 1 and src(n.generators[0].iter) == lp_iter and src(n.key) == key]
+        if comps and not loops:
+            # {chain.index: {...} for chain in topology.chains}: the value expression is evaluated anew for every element
+            v = comps[0].value
+            ok = isinstance(v, (ast.Dict, ast.DictComp)) or (isinstance(v, ast.Call) and call_name(v) == "dict")
+            why = "the value stored under %s in the comprehension over %s is `%s`, not a dict built per element" % (key, lp_iter, src(v)[:60])
+            loops = comps
+        elif loops:
             lp = loops[0]
             stores = [st for st in lp.body if isinstance(st, ast.Assign) and isinstance(st.targets[0], ast.Subscript) and src(st.targets[0].slice) == key]
             if stores:
